@@ -90,10 +90,12 @@ type Cmd struct {
 type Pipeline struct {
 	Bang bool   `json:"bang,omitempty"`
 	Cmds []*Cmd `json:"cmds"`
+	NLs  []bool `json:"nls,omitempty"` // NLs[i]: a newline follows the i-th "|" (linebreak)
 }
 
 type AOItem struct {
 	Op string    `json:"op"`
+	NL bool      `json:"nl,omitempty"` // a newline follows the operator (linebreak)
 	P  *Pipeline `json:"p"`
 }
 
@@ -106,8 +108,9 @@ type AndOr struct {
 
 // CList is a compound list, or (Top) the list of a complete command.
 type CList struct {
-	Items []*AndOr `json:"items"`
-	Top   bool     `json:"top,omitempty"`
+	Items  []*AndOr `json:"items"`
+	Top    bool     `json:"top,omitempty"`
+	LeadNL bool     `json:"lead_nl,omitempty"` // a newline follows the opening token (linebreak before the first command)
 }
 
 // Program is one complete command.
